@@ -64,10 +64,10 @@ static void partial_sum_T(const CaseCfg& c, Rng& rng, Outcome& o) {
   w.kv("n", c.n).kv("threads", c.threads).kv("in_place", inPlace).kv("block_size", blockSize);
   if (bad != c.n)
     o.violation("C16:partial_sum:wrong-value",
-                w.kv("i", bad).kv("expected", (long long)expect[bad]).kv("got", (long long)out[bad])
+                J(w).kv("i", bad).kv("expected", (long long)expect[bad]).kv("got", (long long)out[bad])
                     .kv("block_of_i", blockSize ? bad / blockSize : 0).str());
   if (retOff != (long)c.n)
-    o.violation("C16:partial_sum:wrong-return", w.kv("returned_offset", retOff).str());
+    o.violation("C16:partial_sum:wrong-return", J(w).kv("returned_offset", retOff).str());
   o.cls = (bad == c.n && retOff == (long)c.n) ? "ok" : "bad";
   // measured: does the block split leave empty trailing blocks ((threads-1)*blockSize >= n)?
   o.add("partial_sum_cases_with_empty_blocks", c.n >= 1024 && blockSize * (c.threads - 1) >= c.n);
